@@ -92,25 +92,25 @@ Ltac fr1 :=
   first
   [ assumption
   | apply rel_refl
-  | fr_helpers
-  | fr_pair
-  | apply rel_upd; [intro; reflexivity|]
-  | apply rel_emit; [reflexivity|]
-  | apply rel_send; [reflexivity|]
-  | apply rel_raise
   | match goal with
     | |- rel _ _ (if ?b then _ else _) => destruct b eqn:?
     | |- rel _ _ (match ?x with _ => _ end) => destruct x eqn:?
     | |- rel _ _ (fst (if ?b then _ else _)) => destruct b eqn:?
     | |- rel _ _ (fst (match ?x with _ => _ end)) => destruct x eqn:?
     | |- rel _ _ (fst (_, _)) => cbn [fst]
-    end ].
+    end
+  | fr_pair
+  | fr_helpers
+  | apply rel_upd; [intro; reflexivity|]
+  | apply rel_emit; [reflexivity|]
+  | apply rel_send; [reflexivity|]
+  | apply rel_raise ].
 Ltac fr := repeat fr1.
 
 (* ---------- pure quiet helpers (both relations at once) ---------- *)
 Lemma fire_rel k cb r e s s0 : rel k s s0 -> rel k s (fire cb r e s0).
 Proof. intros H. unfold fire. fr. Qed.
-Ltac fr_h1 := first [apply fire_rel].
+Ltac fr_h1 := match goal with |- rel _ _ (fire _ _ _ _) => apply fire_rel end.
 Ltac fr_helpers ::= fr_h1.
 
 Lemma call_err_rel k err cb s s0 : rel k s s0 -> rel k s (call_err err cb s0).
@@ -128,7 +128,10 @@ Qed.
 
 Lemma send_next_idx_rel k d nx r su s s0 : rel k s s0 -> rel k s (send_next_idx d nx r su s0).
 Proof. intros H. unfold send_next_idx. fr. Qed.
-Ltac fr_h2 := first [fr_h1 | apply call_err_rel | apply on_leader_changed_rel | apply send_next_idx_rel].
+Ltac fr_h2 := first [fr_h1 | match goal with
+  | |- rel _ _ (call_err _ _ _) => apply call_err_rel
+  | |- rel _ _ (on_leader_changed _) => apply on_leader_changed_rel
+  | |- rel _ _ (send_next_idx _ _ _ _ _) => apply send_next_idx_rel end].
 Ltac fr_helpers ::= fr_h2.
 
 Lemma get_transmission_rel k e x s s0 : rel k s s0 -> rel k s (fst (get_transmission e x s0)).
@@ -145,8 +148,11 @@ Proof.
   intros H. unfold delta_read. cbv zeta.
   destruct (_ && _); eapply rel_eq; try eassumption; reflexivity.
 Qed.
-Ltac fr_h3 := first [fr_h2 | apply get_transmission_rel | apply cancel_transmission_rel
-                    | apply set_transmission_rel | apply delta_read_rel].
+Ltac fr_h3 := first [fr_h2 | match goal with
+  | |- rel _ _ (fst (get_transmission _ _ _)) => apply get_transmission_rel
+  | |- rel _ _ (cancel_transmission _ _) => apply cancel_transmission_rel
+  | |- rel _ _ (fst (set_transmission _ _)) => apply set_transmission_rel
+  | |- rel _ _ (delta_read _ _) => apply delta_read_rel end].
 Ltac fr_helpers ::= fr_h3.
 
 Lemma send_pieces_rel k fuel x en prev b pos s s0 :
@@ -155,12 +161,12 @@ Proof.
   revert pos s0. induction fuel as [|f IH]; simpl; intros pos s0 H; auto.
   destruct (psize en <=? pos); auto. apply IH. fr.
 Qed.
-Ltac fr_h4 := first [fr_h3 | apply send_pieces_rel].
+Ltac fr_h4 := first [fr_h3 | match goal with |- rel _ _ (send_pieces _ _ _ _ _ _ _) => apply send_pieces_rel end].
 Ltac fr_helpers ::= fr_h4.
 
 Lemma ae_body_rel k e x next s s0 : rel k s s0 -> rel k s (fst (ae_body e x next s0)).
 Proof. intros H. unfold ae_body. cbv zeta. fr. Qed.
-Ltac fr_h5 := first [fr_h4 | apply ae_body_rel].
+Ltac fr_h5 := first [fr_h4 | match goal with |- rel _ _ (fst (ae_body _ _ _ _)) => apply ae_body_rel end].
 Ltac fr_helpers ::= fr_h5.
 
 Lemma ae_loop_rel k fuel e start x single ser_ s s0 :
@@ -170,14 +176,14 @@ Proof.
   - fr.
   - fr. apply IH. fr.
 Qed.
-Ltac fr_h6 := first [fr_h5 | apply ae_loop_rel].
+Ltac fr_h6 := first [fr_h5 | match goal with |- rel _ _ (ae_loop _ _ _ _ _ _ _) => apply ae_loop_rel end].
 Ltac fr_helpers ::= fr_h6.
 
 Lemma send_ae_rel k e s s0 : rel k s s0 -> rel k s (send_ae e s0).
 Proof.
   intros H. unfold send_ae. cbv zeta. apply fold_rel.
   - intros s1 a H1. fr.
-  - fr.
+  - apply rel_upd; [intro; reflexivity|]. eapply rel_eq; [| | exact H]; reflexivity.
 Qed.
 
 Lemma submit_rel k e c cbk s s0 : rel k s s0 -> rel k s (submit e c cbk s0).
@@ -194,8 +200,13 @@ Proof. intros H. unfold tick_ready. cbv zeta. fr. Qed.
 
 Lemma ae_commit_rel k c v s s0 : rel k s s0 -> rel k s (ae_commit c v s0).
 Proof. intros H. unfold ae_commit. cbv zeta. fr. Qed.
-Ltac fr_h7 := first [fr_h6 | apply send_ae_rel | apply submit_rel | apply try_compact_rel
-                    | apply tick_timer_rel | apply tick_ready_rel | apply ae_commit_rel].
+Ltac fr_h7 := first [fr_h6 | match goal with
+  | |- rel _ _ (send_ae _ _) => apply send_ae_rel
+  | |- rel _ _ (submit _ _ _ _) => apply submit_rel
+  | |- rel _ _ (try_compact _ _) => apply try_compact_rel
+  | |- rel _ _ (tick_timer _ _) => apply tick_timer_rel
+  | |- rel _ _ (tick_ready _) => apply tick_ready_rel
+  | |- rel _ _ (ae_commit _ _ _) => apply ae_commit_rel end].
 Ltac fr_helpers ::= fr_h7.
 
 Lemma commit_loop_rel k fuel ci next s s0 : rel k s s0 -> rel k s (fst (commit_loop fuel ci next s0)).
@@ -206,5 +217,7 @@ Qed.
 
 Lemma tick_send_rel k e need s s0 : rel k s s0 -> rel k s (tick_send e need s0).
 Proof. intros H. unfold tick_send. fr. Qed.
-Ltac fr_h8 := first [fr_h7 | apply commit_loop_rel | apply tick_send_rel].
+Ltac fr_h8 := first [fr_h7 | match goal with
+  | |- rel _ _ (fst (commit_loop _ _ _ _)) => apply commit_loop_rel
+  | |- rel _ _ (tick_send _ _ _) => apply tick_send_rel end].
 Ltac fr_helpers ::= fr_h8.
